@@ -96,9 +96,10 @@ sf_on_tick(int sig)
 {
 	(void)sig;
 #if defined INCLUDED_vdrv_h_
-	/* a tick is progress as far as the supervisor is concerned; hangs are this watchdog's business */
+	/* a tick is progress as far as the supervisor is concerned; hangs are this watchdog's business
+	 * (a multiple of 256 so that vd_next()'s deadline check keeps its cadence) */
 	if (vd_sh != NULL) {
-		vd_sh->beat++;
+		vd_sh->beat += 256;
 	}
 #endif
 	if (!sf_armed) {
